@@ -133,7 +133,8 @@ func Subtraction(left, right value.Value) error {
 				return errors.WithStack(fmt.Errorf("FLOAT literal could not sub to RTIME"))
 			}
 			rv := value.Unwrap[*value.Float](right)
-			lv.Value -= time.Duration(rv.Value) * time.Second
+			// FLOAT is the number of seconds, keep the fraction
+			lv.Value -= time.Duration(rv.Value * float64(time.Second))
 		case value.RTimeType:
 			rv := value.Unwrap[*value.RTime](right)
 			lv.Value -= rv.Value
